@@ -4,7 +4,7 @@
    order and per-key results depend only on that key's subsequence, for every tick partition and
    every interleaving of different keys.
    Proved for the modelled IR (subset of HydroNode, see checks/C29.json). *)
-From HV Require Import Hydro.Model Hydro.ModelTick Hydro.ModelFlows Hydro.PBase Hydro.PTick Hydro.PFlows.
+From HV Require Import Hydro.Model Hydro.ModelTick Hydro.ModelFlows Hydro.PBase Hydro.PTick Hydro.PFlows Hydro.PRepair.
 
 (* TotalOrder nodes: sequence equality with the denotation, for every partition into ticks *)
 Theorem C29_total_order_modelled_ir :
@@ -77,3 +77,22 @@ Proof.
   split; [apply perm_swap|]. split; [reflexivity|]. vm_compute. discriminate.
 Qed.
 Print Assumptions C29_join_bounded_unordered_side_refuted.
+
+(* REPAIRED typing ([bord_fix]: a join / cross product is ordered only if both sides are): every
+   tick program whose order-sensitive operators get ordered inputs ([bwf], what the IsOrdered /
+   commutativity bounds of the API demand) is deterministic up to its type under ANY two arrival
+   orders of its NoOrder-cast streams: equal sequences where typed TotalOrder, equal multisets
+   otherwise, in every tick of every history. *)
+Theorem C29_repaired_typing_oracle_independent : forall n, bwf n ->
+  forall sigma sigma', perm_oracle sigma -> perm_oracle sigma' ->
+  forall bs, Forall2 (equiv (bord_fix n)) (bspec_o sigma n bs) (bspec_o sigma' n bs).
+Proof. exact bspec_oracle_independent. Qed.
+Print Assumptions C29_repaired_typing_oracle_independent.
+
+(* under the repaired typing the finding's flow is typed NoOrder, and satisfies the hypotheses *)
+Example C29_repaired_typing_on_witness :
+  bord t_join_half_unord = true /\ bord_fix t_join_half_unord = false /\ bwf t_join_half_unord.
+Proof. repeat split. Qed.
+
+Example C29_oracle_rev_is_perm : perm_oracle (@rev val).
+Proof. intros l. symmetry. apply Permutation_rev. Qed.
